@@ -1,1 +1,21 @@
-int main(){return 0;}
+// REPLAY adapter: feeds the verifier's input to the REAL Assets::lexicallyRejected and evaluates the exact specification natively.
+#include "iora/web/assets.hpp"
+#include "replay_io.h"
+int main(int argc, char **argv) {
+  auto in = replay_io::load(argv[1]);
+  std::vector<uint8_t> d = replay_io::bytes(in["IN"]);
+  if (in.count("IN_N")) d.resize(std::min<size_t>(d.size(), replay_io::u64(in["IN_N"])));
+  std::string s(d.begin(), d.end());
+  bool got;
+  try { got = iora::web::Assets::lexicallyRejected(std::string_view(s)); }
+  catch (const std::exception &e) { replay_io::fail(std::string("lexicallyRejected threw ") + e.what()); }
+  // spec: leading '/', any NUL, any backslash, or a '/'-delimited segment equal to ".."
+  bool want = false;
+  if (!s.empty() && s[0] == '/') want = true;
+  for (char c : s) if (c == '\0' || c == '\\') want = true;
+  for (size_t i = 0; i + 2 <= s.size(); i++)
+    if ((i == 0 || s[i - 1] == '/') && s[i] == '.' && s[i + 1] == '.' && (i + 2 == s.size() || s[i + 2] == '/')) want = true;
+  if (got != want) replay_io::fail(std::string("lexicallyRejected returned ") + (got ? "true" : "false") + " but the specification says " + (want ? "rejected" : "accepted"));
+  replay_io::ok("result equals the specification on this input");
+  return 0;
+}
